@@ -82,17 +82,42 @@ def check_map_get(fx, rep, map_get):
     b = fx.body(map_get)
     rep.analysed(b)
     pv = F.Prov(b)
-    gets = [(bi, t) for bi, t in b.calls() if F.norm_callee(t) == 'std::collections::HashMap::get']
-    okk = len(gets) == 1 and all(x == ('param', 2) for x in pv.of_operand(gets[0][1]['args'][1]))
-    rep.check(okk, 'R2', 'exact-key-first', b.loc(), 'self.map.get(key) with the key as given', 'Map::get does not start with a lookup of the key as given')
-    ors = [(bi, t) for bi, t in b.calls() if F.norm_callee(t) == 'std::option::Option::or_else']
-    okk = len(ors) == 1 and bool(gets) and all(x[0] == 'call' and x[3] == gets[0][0] for x in F.Prov(b, transparent={}).of_operand(ors[0][1]['args'][0]))
-    rep.check(okk, 'R2', 'fallback-only-on-miss', b.loc(), 'fallback is the or_else closure of the exact lookup', 'fallback lookup is not confined to the miss edge of the exact lookup')
     cl = [fx.bodies[c] for c in fx.children.get(b.path, []) if fx.bodies[c].raw['kind'] == 'Closure']
-    if len(cl) != 1:
-        rep.violation('R2', 'closure', b.loc(), 'expected one fallback closure in Map::get, found %d' % len(cl))
+    gets = [(bi, t) for bi, t in b.calls() if F.norm_callee(t) == 'std::collections::HashMap::get']
+    exact = [(bi, t) for bi, t in gets if all(x == ('param', 2) for x in pv.of_operand(t['args'][1]))]
+    rep.check(len(exact) == 1, 'R2', 'exact-key-first', b.loc(), 'self.map.get(key) with the key as given', 'Map::get does not start with a lookup of the key as given')
+    if len(exact) != 1:
         return
-    c = cl[0]
+    ebi = exact[0][0]
+    rest = [(bi, t) for bi, t in gets if bi != ebi]
+    npv = F.Prov(b, transparent={})
+    if cl and not rest:
+        # form 1: exact.or_else(|| fallback)
+        ors = [(bi, t) for bi, t in b.calls() if F.norm_callee(t) == 'std::option::Option::or_else']
+        okk = len(ors) == 1 and len(cl) == 1 and all(x[0] == 'call' and x[3] == ebi for x in npv.of_operand(ors[0][1]['args'][0]))
+        rep.check(okk, 'R2', 'fallback-only-on-miss', b.loc(), 'fallback is the or_else closure of the exact lookup', 'fallback lookup is not confined to the miss edge of the exact lookup')
+        if len(cl) != 1:
+            rep.violation('R2', 'closure', b.loc(), 'expected one fallback closure in Map::get, found %d' % len(cl))
+            return
+        c = cl[0]
+    else:
+        # form 2: `if let Some(v) = exact { return Some(v) }` followed by the fallback in the same body
+        okk = len(rest) == 1 and not cl
+        if okk:
+            fbi = rest[0][0]
+            okk = False
+            for sb, blk in enumerate(b.blocks):
+                t = blk['term']
+                if t['k'] != 'SwitchInt' or not b.dominates(sb, fbi):
+                    continue
+                dl = F.op_local(t['discr'])
+                for st in blk['stmts']:
+                    if st['k'] == 'Assign' and st['rv']['k'] == 'Discriminant' and st['place']['l'] == dl and not st['place'].get('p') and \
+                       any(x[0] == 'call' and x[3] == ebi for x in npv.of_operand({'k': 'Copy', 'place': st['rv']['place']})):
+                        some_t = [k for v, k in t['arms'] if int(v) == 1] or ([t['otherwise']] if any(int(v) == 0 for v, _ in t['arms']) else [])
+                        okk = bool(some_t) and fbi not in b.reachable_from(some_t)
+        rep.check(okk, 'R2', 'fallback-only-on-miss', b.loc(), 'the converted lookup is reachable only when the exact lookup returned None', 'fallback lookup is not confined to the miss edge of the exact lookup')
+        c = b
     rep.analysed(c)
     casts = [s for _, _, s in c.stmts() if s['k'] == 'Assign' and s['rv']['k'] == 'Cast' and s['rv']['kind'] in ('IntToInt', 'IntToFloat', 'FloatToInt')]
     rep.check(not casts, 'R2', 'no-as-cast', c.loc(), 'no `as` conversion between key kinds', 'Map::get converts keys with `as` (wraps negative/huge keys onto other keys)')
@@ -133,7 +158,7 @@ def check_map_get(fx, rep, map_get):
     for k, v in want.items():
         rep.check(v, 'R2', 'convert/%s->%s' % (k[0], k[1]), c.loc(), 'Key::%s(k) -> Key::%s(%s::try_from(k))' % (k[0], k[1], k[2]),
                   'no checked conversion Key::%s -> Key::%s found in the fallback' % (k[0], k[1]))
-    g2 = [(bi, t) for bi, t in c.calls() if F.norm_callee(t) == 'std::collections::HashMap::get']
+    g2 = [(bi, t) for bi, t in c.calls() if F.norm_callee(t) == 'std::collections::HashMap::get' and not (c is b and bi == ebi)]
     rep.check(len(g2) == 1, 'R2', 'fallback-lookup', c.loc(), 'one lookup with the converted key', 'fallback performs %d lookups' % len(g2))
 
 
@@ -152,7 +177,9 @@ def check_r3(fx, rep):
     gets = [t for bi, t in idx_calls if F.norm_callee(t) == 'core::slice::<impl [T]>::get' and 'objects::Value' in t['arg_tys'][0]]
     rep.check(len(gets) >= 1, 'R3', 'index/list-get', arms['_[_]']['loc'], 'slice::get on the list', 'no slice::get on the list in the index arm')
     mg = [t for bi, t in idx_calls if F.norm_callee(t) == 'cel_interpreter::objects::Map::get']
-    rep.check(len(mg) >= 4, 'R3', 'index/map-get-x4', arms['_[_]']['loc'], '%d Map::get calls (String/Bool/Int/UInt keys)' % len(mg), 'map indexing does not use Map::get for all 4 key kinds (%d)' % len(mg))
+    rawmap = [t for bi, t in idx_calls if F.norm_callee(t) in LOOKUPS and MAPTY.search(t['arg_tys'][0])]
+    rep.check(len(mg) >= 1 and not rawmap, 'R3', 'index/map-get', arms['_[_]']['loc'], '%d Map::get call(s), no raw lookup' % len(mg),
+              'map indexing does not go through Map::get (%d Map::get, %d raw lookups)' % (len(mg), len(rawmap)))
     # None -> Null: every unwrap_or in the arm has a Value::Null aggregate as default
     pv = m.pv
     for bi, t in idx_calls:
@@ -352,8 +379,8 @@ def run(fx, rep):
     check_map_get(fx, rep, mg)
     check_r3(fx, rep)
     check_concat_size(fx, rep)
-    rep.floor('R1', 9, '(raw: Map::get x2, member(); via Map::get: index x4, @in, contains())')
+    rep.floor('R1', 5, '(raw: Map::get x2, member(); via Map::get: index, @in, contains())')
     rep.floor('R2', 6)
     rep.floor('R6', 2)
     rep.floor('R7', 3)
-    rep.floor('R3', 9)
+    rep.floor('R3', 6)
